@@ -143,10 +143,13 @@ theorem inverse_core (ρ : String → FieldDecl) (hρ : RefsAreClasses ρ) :
     simp [schemaToDecl, toSchemaF, sizeDropped_nil h1, normReq, inverse_coreL ρ hρ ss h2]
   | .mapAny addlKw mn mx, h => by
     simp only [issues] at h
-    have := ite_nil' (by simp) h
+    obtain ⟨h1, h2⟩ := append_nil_of_isEmpty h
+    have h1' := ite_nil' (by simp) h1
+    have h2' := ite_nil' (by simp) h2
     cases addlKw with
-    | none => simp [schemaToDecl, toSchemaF, mapSize]
-    | some b => simp at this
+    | some b => simp at h1'
+    | none =>
+      cases mn <;> cases mx <;> simp_all [schemaToDecl, toSchemaF]
   | .mapOf v mn mx, h => by
     simp only [issues] at h
     simp [schemaToDecl, toSchemaF, plainStringKey, mapSize, normReq, inverse_core ρ hρ v h]
